@@ -308,6 +308,31 @@ PROPS["C04"] = {
     "assumptions": [],
 }
 
+PROPS["C13"] = {
+    "pkg": "p13",
+    "needs_evy": True,
+    "level": "exploration",
+    "level_text": "Probe programs for every non-graphics built-in with arguments from value classes that include each domain boundary "
+                  "(~8*10^4 quick / ~10^6 thorough probes): the result is compared inside Evy with a value the harness computes from the "
+                  "function's documentation with its own code-point based implementation (upper, lower, index, startswith, endswith, trim, "
+                  "replace, split, join, len), or with laws (join inverts split; err set => result 0; rand in [0,n) and integral; rand1 in "
+                  "[0,1); sqrt of exact squares; round half away from zero; min/max in both argument orders), the err/errmsg protocol after "
+                  "every str2num/str2bool call incl. reset after a previous failure, sprint/print/sprintf/printf/repr/typeof text, verbs "
+                  "with width/precision, exit status and panic message through the real evy binary, test counts and summary with and "
+                  "without fail-fast; plus every documented example with an output block (57 run).",
+    "level_note": "Where builtins.md is silent or contradicts itself the probe does not assert: empty 'old' in replace, rand on (0,1), "
+                  "number spellings like 1e5/0x10/inf in str2num (only 'err => 0' is asserted), examples involving cls or rand.",
+    "technique": "property-based testing of built-ins against documentation-derived oracles and algebraic laws + enumeration of documented examples (rapid)",
+    "tests": [
+        {"name": "TestProp", "quick": {"shards": 8, "checks": 10000}, "thorough": {"shards": 16, "checks": 60000}},
+        {"name": "TestDocExamples", "rapid": False, "quick": {"shards": 1}, "thorough": {"shards": 1}},
+    ],
+    "rule": "cases: (built-in, argument class tuple) probes. Every probe is non-trivial (it asserts a documented result); distinct by "
+            "(built-in, classes, source text).",
+    "exhaustive_part": "all documented examples with an evy:output partner (TestDocExamples)",
+    "assumptions": ["number text is shortest decimal form without exponent (as print shows it in the documentation)"],
+}
+
 NOT_APPLICABLE = {}
 
 ENGINES = [
